@@ -157,7 +157,7 @@ func (c *Ctx) ghostInit(st *State, r string, t types.Type) {
 }
 
 func (f *Frame) doPanic(x *ssa.Panic, st *State) {
-	if f.contract != nil && f.top && f.contract.MayPanic {
+	if top := f.c.W.Specs.Contracts[funcKey(f.c.Fn)]; top != nil && top.MayPanic {
 		return
 	}
 	if f.top && f.contract != nil && len(f.contract.PanicsIf) > 0 {
